@@ -247,6 +247,9 @@ func (p *Prog) computeModSet(f *ssa.Function, ms *ModSet, visiting map[*ssa.Func
 				if a, ok := x.Addr.(*ssa.Alloc); ok && !a.Heap {
 					continue
 				}
+				if _, isFV := x.Addr.(*ssa.FreeVar); isFV && p.capPass == f {
+					continue // second pass of capOnlyOf: direct stores to captured cells are accounted separately
+				}
 				ms.addStore(p, x.Addr, elem, nil)
 				if !freshRoot(x.Addr, nil) {
 					// stores into objects allocated by this very function cannot affect the caller's objects
@@ -267,6 +270,16 @@ func (p *Prog) computeModSet(f *ssa.Function, ms *ModSet, visiting map[*ssa.Func
 				ms.all = true
 				ms.unknown["channel op"] = true
 			case ssa.CallInstruction:
+				if c := x.Common(); c.StaticCallee() == nil && !c.IsInvoke() {
+					if _, isB := c.Value.(*ssa.Builtin); !isB && closureOrigin(c.Value) == nil && p.globalFuncInit(c.Value) == nil {
+						if fc := p.ContractFor(f); fc != nil && fc.Options["funcvalues"] == "pure" {
+							// the function's own contract declares the function values it calls pure (an assumption listed
+							// where that contract is checked): callers see no effect of these calls either
+							ms.allocates = true
+							continue
+						}
+					}
+				}
 				p.callMods(x.Common(), ms, visiting, pos(x))
 			}
 		}
@@ -660,6 +673,12 @@ func (vc *VC) loopModSet(fr *frame, l *LoopInfo) *ModSet {
 						continue
 					}
 				}
+				if callee == nil && !c.IsInvoke() && fr.fc != nil && fr.fc.Options["funcvalues"] == "pure" && closureOrigin(c.Value) == nil && vc.prog.globalFuncInit(c.Value) == nil {
+					// a function value (parameter or field of function type) called in a function whose contract declares
+					// funcvalues=pure: the generator treats the call as a pure function of its arguments (listed assumption)
+					ms.allocates = true
+					continue
+				}
 				vc.prog.callMods(c, ms, visiting, "")
 			}
 		}
@@ -968,4 +987,67 @@ func freshSliceValue(v ssa.Value, seen map[ssa.Value]bool) bool {
 		}
 	}
 	return false
+}
+
+// capOnlyOf: memories that closure f (transitively) writes ONLY by direct stores to its own captured variables:
+// memory name -> indices of those free variables. At a call of the closure with known bindings such a memory is not
+// havoced as a whole: only the bound cells get new values (everything else in it is framed).
+func (p *Prog) capOnlyOf(f *ssa.Function) map[string][]int {
+	if p.capOnly == nil {
+		p.capOnly = map[*ssa.Function]map[string][]int{}
+	}
+	if m, ok := p.capOnly[f]; ok {
+		return m
+	}
+	out := map[string][]int{}
+	p.capOnly[f] = out
+	if f.Blocks == nil || len(f.FreeVars) == 0 {
+		return out
+	}
+	ms2 := newModSet()
+	p.capPass = f
+	p.computeModSet(f, ms2, map[*ssa.Function]bool{f: true})
+	p.capPass = nil
+	if ms2.all {
+		return out
+	}
+	for _, b := range f.Blocks {
+		for _, in := range b.Instrs {
+			st, ok := in.(*ssa.Store)
+			if !ok {
+				continue
+			}
+			fv, ok := st.Addr.(*ssa.FreeVar)
+			if !ok {
+				continue
+			}
+			idx := -1
+			for i, x := range f.FreeVars {
+				if x == fv {
+					idx = i
+				}
+			}
+			elem := fv.Type().Underlying().(*types.Pointer).Elem()
+			if idx < 0 || !isCellType(elem) {
+				continue
+			}
+			tmp := newModSet()
+			tmp.addCellsOf(elem)
+			for name := range tmp.cells {
+				if _, other := ms2.cells[name]; other {
+					continue
+				}
+				dup := false
+				for _, k := range out[name] {
+					if k == idx {
+						dup = true
+					}
+				}
+				if !dup {
+					out[name] = append(out[name], idx)
+				}
+			}
+		}
+	}
+	return out
 }
